@@ -59,6 +59,7 @@ def summarise(cases):
         d["programs_with_twin_on_opposite_sides_of_filter"] += 1 if s.get("twin_one_file_admitted") else 0
         d["recorder_errors"] += 1 if s["errors"] else 0
         d["programs_with_over_1000_live_frames"] += 1 if s.get("many_live") else 0
+        d["second_sessions_on_reloaded_module"] += 1 if s.get("second_session") else 0
     return dict(sorted(d.items()))
 
 
